@@ -360,6 +360,10 @@ func (g *syncGen) ingress(ns, name string, ts int) world.IngressSpec {
 		if r.Chance(1, 6) {
 			s.Annotations["auth-tls-strict"] = gen.Pick(r, []string{"true", "false"})
 		}
+		if r.Chance(1, 5) {
+			// settings read only by the declaration that CREATES the backend object
+			world.CreateTimeAnnotations(r, &s)
+		}
 	}
 	return s
 }
